@@ -45,4 +45,5 @@ def main() -> None:
     net.finish("bounded", "small delimited streams (2..8 statements, also equally shaped ones), frame sizes {1,2,3}, 3 physical types, cut at every byte offset 0..len, generic and rdflib flat parsers",
                "each case = (cut offset, byte string); non-trivial = cut not on a frame boundary")
 if __name__ == "__main__":
-    main()
+    from common import run_main
+    run_main(main, "C10")
